@@ -25,6 +25,6 @@ def err_payload(res, k=0):
     return res.vs[1][k]
 
 
-def field(E, decls, struct, fname, adt_value, ty, mem=None):
-    idx = decls.field_index(struct, fname)
+def field(E, decls, struct, fname, adt_value, ty, mem=None, hint=None):
+    idx = decls.field_index(struct, fname, hint)
     return E.read_path(adt_value, (('f', idx, ty),), mem or {}, True, 'spec')
